@@ -407,6 +407,119 @@ def ck6(p, res):
     return n
 
 
+VIEW_T = ("to_ref", "to_mut", "deref", "deref_mut", "borrow", "borrow_mut", "as_ref", "as_mut", "into", "from", "as_usize", "clone")
+
+
+def size_preconditions(p):
+    """core operations that assert `k.div_ceil(base2k) == x.size()` for a precision argument k and an operand x: {fn uid: [(k param, x param)]}"""
+    out = {}
+    for f in p.lib_fns():
+        if not f.uid.startswith("poulpy_core::operations") or f.kind == "Closure":
+            continue
+        flow = Flow(f, transparent=VIEW_T)
+        pre = []
+        for blk in f.blocks:
+            for s in blk["s"]:
+                if s[0] != "A" or s[2]["k"] != "Bin" or s[2]["op"] != "Eq":
+                    continue
+                kp, xp = set(), set()
+                for o in s[2]["o"]:
+                    for r in flow.op_roots(o):
+                        if r[0] != "call":
+                            continue
+                        t = f.blocks[r[1]]["t"]
+                        nm = (f.callee_def(t) or {}).get("n")
+                        if nm == "div_ceil" and t["a"]:
+                            kp |= {q[1] for q in flow.op_roots(t["a"][0]) if q[0] == "param" and not q[2]}
+                        elif nm == "size" and t["a"]:
+                            xp |= {q[1] for q in flow.op_roots(t["a"][0]) if q[0] == "param"}
+                if len(kp) == 1 and len(xp) == 1:
+                    pre.append((list(kp)[0], list(xp)[0]))
+        if pre:
+            out[f.uid] = sorted(set(pre))
+    # forwarders (public delegates, backend hooks): a function passing its own parameters in the asserted positions inherits the precondition
+    changed = True
+    rounds = 0
+    while changed and rounds < 6:
+        changed = False
+        rounds += 1
+        for f in p.lib_fns():
+            if f.kind == "Closure" or f.uid in out or not (f.uid.startswith("poulpy_core::") or f.uid.startswith("poulpy_cpu_")):
+                continue
+            flow = None
+            for bi, t in f.calls():
+                tg = [u for u in p.targets(f, t) if u in out]
+                if not tg:
+                    continue
+                if flow is None:
+                    flow = Flow(f, transparent=VIEW_T)
+                inh = []
+                for (kp, xp) in out[tg[0]]:
+                    if kp - 1 >= len(t["a"]) or xp - 1 >= len(t["a"]):
+                        continue
+                    kr = {q[1] for q in flow.op_roots(t["a"][kp - 1]) if q[0] == "param" and not q[2]}
+                    xr = {q[1] for q in flow.op_roots(t["a"][xp - 1]) if q[0] == "param"}
+                    if len(kr) == 1 and len(xr) == 1:
+                        inh.append((list(kr)[0], list(xr)[0]))
+                if inh:
+                    out[f.uid] = sorted(set(inh))
+                    changed = True
+                    break
+    return out
+
+
+def ck7(p, res):
+    """never panics: a core operation that asserts `k.div_ceil(base2k) == x.size()` must not be handed, by the CKKS layer, a precision read from the operand's metadata
+    (effective_k = log_delta + log_budget) together with the operand itself. Metadata and limb count move independently (rescale, div_pow2, reallocate, any *_into into
+    a larger destination), so either the callee accepts operands with spare limbs or the call site establishes the relation (dominating div_ceil comparison -> error)."""
+    pre = size_preconditions(p)
+    n = 0
+    for f in sorted(p.lib_fns(), key=lambda x: x.uid):
+        if not f.uid.startswith("poulpy_ckks::leveled") or f.kind == "Closure":
+            continue
+        g = None
+        flow = None
+        for bi, t in f.calls():
+            tgs = [u for u in p.targets(f, t) if u.startswith("poulpy_core::")]
+            if not tgs or len(t["a"]) < 3:
+                continue
+            if flow is None:
+                flow = Flow(f, transparent=VIEW_T)
+                g = CFG(f)
+            if bi not in g.reach:
+                continue
+            # argument pairs (operand O, O.effective_k())
+            kobj = {}
+            for ai, a in enumerate(t["a"]):
+                for r in flow.op_roots(a):
+                    if r[0] == "call":
+                        t2 = f.blocks[r[1]]["t"]
+                        if (f.callee_def(t2) or {}).get("n") == "effective_k" and t2["a"]:
+                            for q in flow.op_roots(t2["a"][0]):
+                                if q[0] == "param":
+                                    kobj.setdefault(ai, set()).add(q[1])
+            for ki, objs in sorted(kobj.items()):
+                for xi, a in enumerate(t["a"]):
+                    if xi == ki:
+                        continue
+                    xr = {q[1] for q in flow.op_roots(a) if q[0] == "param"}
+                    if not (xr & objs) or f.local_ty(a[1][0])["s"] in ("usize", "u32") if a[0] in ("c", "m") else not (xr & objs):
+                        continue
+                    n += 1
+                    pname = f.param_names().get(sorted(xr & objs)[0], "?")
+                    cal = (f.callee_def(t) or {}).get("n")
+                    asserted = any((ki + 1, xi + 1) in pre.get(u, []) for u in tgs)
+                    est = any((f.callee_def(t3) or {}).get("n") == "div_ceil" and g.dominates(bj, bi) for bj, t3 in f.calls())
+                    if not asserted or est:
+                        res.ok("CK-7", {"fn": f.pretty, "callee": cal, "operand": pname, "callee_asserts_exact_size": asserted})
+                    else:
+                        res.bad("CK-7", f.pretty, "size-precondition:%s:%s" % (cal, pname),
+                                "%s hands `%s` and `%s.effective_k()` to %s, which asserts effective_k.div_ceil(base2k) == size(): a ciphertext holding more limbs than its metadata "
+                                "needs (after rescale / div_pow2 / reallocate / an *_into into a larger destination) makes the operation panic instead of returning a value or an error"
+                                % (f.pretty, pname, pname, cal), site=f.where(t["l"]))
+    return n
+
+
 def run(res, tier):
     res.level = "other"
     res.explanation = ("Metadata-write and error-path discipline of the CKKS layer decided on MIR: who may write CKKSMeta, budget/precision subtractions guarded by a dominating comparison of the "
@@ -418,6 +531,7 @@ def run(res, tier):
     res.rule("CK-3", "get_automorphism_key / checked_* / ensure_* results are never unwrapped; the key lookup result reaches an error path")
     res.rule("CK-4", "every `*_into*` operation defines dst.meta.log_delta and dst.meta.log_budget (or delegates dst to a function that does) on every success return")
     res.rule("CK-6", "the parameter derivation of ct x ct multiplication (result metadata, convolution offset) is invariant under exchanging the operands a and b (min/max commutative, helper results symmetric)")
+    res.rule("CK-7", "a core operation asserting k.div_ceil(base2k) == x.size() is not handed (x, x.effective_k()) without the call site establishing the relation")
     res.rule("CK-5", "an `==` fast path followed by `<`/`<=` branches compares the same pair of quantities")
     res.assumptions = ["poulpy-core shape asserts are outside this property", "metadata on Err paths is not required to be untouched"]
     cfgs = ["avx-dev"] if tier == "quick" else ["avx-dev", "ref-dev"]
@@ -434,6 +548,8 @@ def run(res, tier):
         res.floor("CK-4", "out-of-place operations", n4, 25)
         n5 = ck5(p, res)
         res.floor("CK-5", "comparison chains", n5, 2)
+        n7 = ck7(p, res)
+        res.floor("CK-7", "core size preconditions reached with metadata-derived precision", n7, 6)
         n6 = ck6(p, res)
         res.floor("CK-6", "ct x ct parameter derivations", n6, 1)
         res.fn_count += n4
